@@ -787,13 +787,19 @@ var subPublic = harness.Define("public-paths", "batches of values through SetLOD
 // may span several opcodes). Whatever the other numbers of the run look like, every number is
 // written by the same rules.
 type RunCase struct {
-	HiRes bool         `json:"hires"`
-	Lines [][2]ops.F32 `json:"lines"`
-	Arcs  [][5]ops.F32 `json:"arcs"` // rx, ry, rotation, x, y (flags fixed: large arc, no sweep)
+	// ViewBox: given to Reset first (nil: a zero-value Encoder). The resolution of a path does not
+	// depend on it.
+	ViewBox *[4]ops.F32  `json:"viewbox,omitempty"`
+	HiRes   bool         `json:"hires"`
+	Lines   [][2]ops.F32 `json:"lines"`
+	Arcs    [][5]ops.F32 `json:"arcs"` // rx, ry, rotation, x, y (flags fixed: large arc, no sweep)
 }
 
 func checkRuns(c RunCase) error {
 	var enc encode.Encoder
+	if c.ViewBox != nil {
+		enc.Reset(ivg.ViewBox{MinX: float32(c.ViewBox[0]), MinY: float32(c.ViewBox[1]), MaxX: float32(c.ViewBox[2]), MaxY: float32(c.ViewBox[3])}, ivg.DefaultPalette)
+	}
 	enc.HighResolutionCoordinates = c.HiRes
 	enc.StartPath(0, 0, 0)
 	for _, l := range c.Lines {
@@ -859,6 +865,18 @@ func TestPublicRuns(t *testing.T) {
 	harness.Rapid(t, harness.N(3000, 16*30000), func(t *rapid.T) {
 		c := RunCase{HiRes: rapid.IntRange(0, 3).Draw(t, "hires") == 0}
 		var labels []string
+		if rapid.Bool().Draw(t, "vb") {
+			// any viewBox: tiny, huge, off-centre
+			w := float32(math.Pow(10, rapid.Float64Range(-3, 4).Draw(t, "vbw")))
+			h := float32(math.Pow(10, rapid.Float64Range(-3, 4).Draw(t, "vbh")))
+			x, y := float32(rapid.IntRange(-100, 100).Draw(t, "vbx")), float32(rapid.IntRange(-100, 100).Draw(t, "vby"))
+			if x+w > x && y+h > y {
+				c.ViewBox = &[4]ops.F32{ops.F32(x), ops.F32(y), ops.F32(x + w), ops.F32(y + h)}
+				if w < 1 || h < 1 {
+					labels = append(labels, "viewbox-smaller-than-one-unit")
+				}
+			}
+		}
 		val := func(l string) ops.F32 {
 			if rapid.Bool().Draw(t, l+".grid") {
 				return ops.F32(float32(rapid.IntRange(-130*64, 130*64).Draw(t, l)) / 64)
